@@ -78,7 +78,19 @@ class ValueOracle(docexp.Oracle):
         m = tree.resolve(root, tuple(op[1]))
         if m is None or isinstance(m, M.RawTokenModel):
             return None
-        return {'m': m, 'before': read_all(m), 'glue': tree.glued_pairs(root.token_store)}
+        before = read_all(m)
+        # is the state *entering* this step still one that prints to a text which reads back the same values?  After a known C06
+        # finding (F22: two surviving tokens touch) it is not, and every later write on that document inherits the damage; the
+        # step that caused it was judged at its own depth, so the re-parse clause is skipped here (counted, never silently)
+        faithful = True
+        again0 = docs.try_parse(tree.pr(root), M.File, True)
+        m0 = tree.resolve(again0, tuple(op[1])) if again0 is not None else None
+        if m0 is None or type(m0) is not type(m):
+            faithful = False
+        else:
+            b0 = read_all(m0)
+            faithful = all(b0.get(n) == v for n, v in before.items() if n not in COMMENT_PROPS and n != 'indent_by')
+        return {'m': m, 'before': before, 'glue': tree.glued_pairs(root.token_store), 'faithful': faithful}
 
     def post(self, root, op, ap, pre, res, case):
         if pre is None or ap.exc is not None:
@@ -113,6 +125,9 @@ class ValueOracle(docexp.Oracle):
         again = docs.try_parse(text, M.File, True)
         if tree.newly_glued(pre['glue'], root.token_store):
             res.counters['skipped re-parse: known C06 finding (removal leaves two surviving tokens touching)'] += 1
+            return
+        if not pre['faithful']:
+            res.counters['skipped re-parse: the state entering this step already did not read back (judged at the earlier step)'] += 1
             return
         if again is None:
             if attr in ('indent', 'indent_by'):
@@ -395,7 +410,9 @@ def main(run: core.Run) -> None:
         items = docexp.corpus(docs.L_FULL, 2, depth=1)
     else:
         items = docexp.corpus(docs.L_FULL, 2, depth=1, modes=(True, False)) + docexp.corpus(docs.L_EDIT, 3, nmin=3, depth=1)
-    items += docexp.class_cases(1)
+    # thorough: histories of two assignments on every class document (a value written first must survive a later sibling write
+    # and a later re-write of the same property; deduplicated by canonical state)
+    items += docexp.class_cases(1 if tier == 'quick' else 2)
     docexp.bfs(run, ORACLE, items, 'generic value properties')
     group_bfs(run, 'cost', cost_forms())
     group_bfs(run, 'txn', TXN_FORMS)
